@@ -162,3 +162,15 @@ MUTANTS += [
     dict(property='C20', name='sens_to_jtj accumulates S S^T-like products of squared entries', file=BLF, old="            if resid is None:\n                J += np.dot(s.T, s)", new="            if resid is None:\n                J += np.dot(s.T, s*s)"),
     dict(property='C20', name='jtj selects the initial-value columns', file=BLF, old='        index_out = self._getTargetParamSensIndex()\n        return self.sens_to_jtj(sens[:, index_out], diffLoss)', new='        index_out = self._getTargetStateSensIndex()\n        return self.sens_to_jtj(sens[:, index_out], diffLoss)'),
 ]
+MUTANTS += [
+    dict(property='C06', name='_getSolution integrates at the times with t0 prepended', file=BLF, old="                                              self._x0, self._t0,\n                                              self._observeT,", new="                                              self._x0, self._t0,\n                                              self._t,"),
+    dict(property='C06', name='_getSolution selects the observed columns in sorted order', file=BLF, old="            return solution[:, self._stateIndex]", new="            return solution[:, sorted(self._stateIndex)]"),
+    dict(property='C06', name='per-state weights laid out block-wise (seeded change)', file=BLF, old="        elif p == m:\n            if q == 1:\n                x = np.ones((n, p))*x", new="        elif p == m:\n            if q == 1:\n                x = np.repeat(x, n).reshape(n, p)"),
+    dict(property='C06', name='_setParam binds target parameters in reverse order', file=BLF, old="                        thetaDict[self._targetParam[i]] = theta[i]", new="                        thetaDict[self._targetParam[l1 - 1 - i]] = theta[i]"),
+    dict(property='C06', name='_setParamStateInput takes the initial values from the front', file=BLF, old="                self._setX0(theta[-self._num_state:])\n                self._setParam(theta[:self._num_param])", new="                self._setX0(theta[:self._num_state])\n                self._setParam(theta[:self._num_param])"),
+    dict(property='C06', name='NormalLoss hands the weights where sigma belongs', file='pygom/loss/ode_loss.py', old="self._lossObj = Normal(self._y, self._weight, self._spread_param)", new="self._lossObj = Normal(self._y, self._spread_param, self._weight)"),
+    dict(property='C06', name='_unrollState writes to the position in the target list, not the state index', file=BLF, old="            index = self._ode.get_state_index(s)\n            self._x0[index] = x0[i]", new="            index = self._ode.get_state_index(s)\n            self._x0[i] = x0[i]"),
+]
+MUTANTS += [
+    dict(property='C06', name='_getSolution hands the model the parameter holder before binding theta', file=BLF, old="        if theta is not None:\n            self._setParam(theta)\n\n        self._ode.parameters = self._theta\n        # TODO: is this the correct approach", new="        self._ode.parameters = self._theta\n        if theta is not None:\n            self._setParam(theta)\n\n        # TODO: is this the correct approach"),
+]
